@@ -38,6 +38,8 @@ type c11Program struct {
 	Created  []string          `json:"created,omitempty"` // tables / out files the program creates when it completes
 	HoldLock string            `json:"hold_lock,omitempty"` // file on which the harness holds an exclusive flock(2) during the run (a foreign live holder)
 	WantFail bool              `json:"want_fail,omitempty"` // the undisturbed run is expected to fail (error / timeout)
+	MapOrder string            `json:"map_order"`           // VERIF_MAPORDER of every run of this program ("" = all map ranges in sorted key order)
+	Base     string            `json:"base,omitempty"`      // name without the map order suffix
 }
 
 func c11Programs(thorough bool) []c11Program {
@@ -97,6 +99,9 @@ func c11Exec(dir string, p c11Program, env []string) procx.Outcome {
 		if err == nil && syscall.Flock(int(fp.Fd()), syscall.LOCK_EX|syscall.LOCK_NB) == nil {
 			held = fp
 		}
+	}
+	if !strings.HasPrefix(strings.Join(env, " "), "VERIF_MAPORDER=") {
+		env = append([]string{"VERIF_MAPORDER=" + p.MapOrder}, env...)
 	}
 	out := procx.Exec(procx.Run{Dir: dir, Args: p.Args, Env: env, Timeout: 40 * time.Second})
 	if held != nil {
@@ -217,8 +222,24 @@ func c11Run(c *core.Ctx) {
 		errnos = []string{"EACCES", "ENOENT", "EISDIR", "EROFS", "ENOSPC", "EIO"}
 	}
 	var idx int64
-	for _, p := range c11Programs(c.Thorough()) {
-		tr := filepath.Join(filepath.Dir(dir), "c11trace-"+p.Name+".txt")
+	var progs []c11Program
+	for _, p0 := range c11Programs(c.Thorough()) {
+		p0.Base = p0.Name
+		orders := c10MapOrders(dir, func(env []string) { c11Exec(dir, p0, env) })
+		if c.Shard == 0 {
+			c.Add("map_orders_explored", int64(len(orders)))
+		}
+		for _, mo := range orders {
+			p := p0
+			p.MapOrder = mo
+			if mo != "" {
+				p.Name += "[map " + mo + "]"
+			}
+			progs = append(progs, p)
+		}
+	}
+	for _, p := range progs {
+		tr := filepath.Join(filepath.Dir(dir), fmt.Sprintf("c11trace-%s-%s.txt", p.Base, strings.ReplaceAll(p.MapOrder, ":", "_")))
 		ref := c11Exec(dir, p, []string{"VERIF_TRACE=" + tr})
 		if (ref.Exit != 0) != p.WantFail {
 			c.Violate("undisturbed-run-unexpected-exit:"+p.Name, fmt.Sprintf("program %s %q exits %d (%s) with no injection", p.Name, p.Args, ref.Exit, clip(ref.Stderr)), c11Payload{Program: p, Inj: c11Injection{Kind: "none"}})
@@ -247,7 +268,7 @@ func c11Run(c *core.Ctx) {
 				}
 			}
 			// a second signal while csvq is unwinding from the first one
-			if tp.K >= firstChange && (c.Thorough() || p.Name == "update-create" || p.Name == "update-2-tables" || p.Name == "select-join") {
+			if tp.K >= firstChange && (c.Thorough() || p.Base == "update-create" || p.Base == "update-2-tables" || p.Base == "select-join") {
 				span := 3
 				if c.Thorough() {
 					span = len(ref.Trace)
@@ -277,12 +298,12 @@ func c11Run(c *core.Ctx) {
 				out := c11Exec(dir, p, env)
 				actual := tp
 				if tp.K-1 < len(out.Trace) && out.Trace[tp.K-1].K == tp.K {
-					actual = out.Trace[tp.K-1] // tables are released in Go map order: point k of this run may concern another file than in the reference run
+					actual = out.Trace[tp.K-1] // point k of this run may concern another file than in the reference run (failure paths range over other maps)
 				}
 				c11Judge(c, dir, p, out, final, inj, tp.K, actual)
 				c.Eval(fmt.Sprintf("%s@%d:%s%s", p.Name, tp.K, inj.Kind, inj.Arg), tp.K >= firstChange)
 				c.Observe("exit_codes", fmt.Sprint(out.Exit))
-				if c.WantSample() && tp.K > firstChange && p.Name == "update-create" {
+				if c.WantSample() && tp.K > firstChange && p.Base == "update-create" {
 					c.Sample(map[string]any{"program": p.Args, "point": tp.String(), "injection": inj, "exit": out.Exit, "directory_after": keys(drv.DirSnapshot(dir))})
 				}
 			}
